@@ -1607,6 +1607,24 @@ func (p *parser) parseBody(scope *ast.Scope) *ast.BlockStmt {
 	return &ast.BlockStmt{Lbrace: lbrace, List: list, Rbrace: rbrace}
 }
 
+// parseLambdaBody parses the block of a lambda expression `(x, y) => { ... }`.
+// It is a function body: labels and goto targets are local to it.
+func (p *parser) parseLambdaBody() *ast.BlockStmt {
+	if p.trace {
+		defer un(trace(p, "LambdaBody"))
+	}
+
+	lbrace := p.expect(token.LBRACE)
+	p.openScope()
+	p.openLabelScope()
+	list := p.parseStmtList()
+	p.closeLabelScope()
+	p.closeScope()
+	rbrace := p.expect2(token.RBRACE)
+
+	return &ast.BlockStmt{Lbrace: lbrace, List: list, Rbrace: rbrace}
+}
+
 func (p *parser) parseBlockStmt() *ast.BlockStmt {
 	if p.trace {
 		defer un(trace(p, "BlockStmt"))
@@ -2666,7 +2684,7 @@ func (p *parser) parseLambdaExpr(allowTuple, allowCmd, allowRangeExpr bool) (x a
 			}
 			p.expect(token.RPAREN)
 		case token.LBRACE: // {
-			body = p.parseBlockStmt()
+			body = p.parseLambdaBody()
 		default:
 			rhs = []ast.Expr{p.parseExpr(false, false, false)}
 		}
